@@ -26,7 +26,7 @@ TOKEN_RE = re.compile(r'"(?:[^"]|"")*"|::=|\.\.\.|\.\.|[A-Za-z][A-Za-z0-9-]*|\d+
 MULTIWORD = [('OCTET', 'STRING'), ('BIT', 'STRING'), ('OBJECT', 'IDENTIFIER'), ('AUTOMATIC', 'TAGS'), ('EXTENSIBILITY', 'IMPLIED'),
              ('EXPLICIT', 'TAGS'), ('IMPLICIT', 'TAGS'), ('COMPONENTS', 'OF'), ('EMBEDDED', 'PDV'), ('WITH', 'COMPONENTS')]
 SEPARATORS = [' ', '  ', '\t', '\n', '\r\n', ' \n ', '-- c\n', ' -- in line -- ', '/* b */', ' /* a /* n */ c */ ',
-              '-- "q" { } END ::= \n', '/* "q" { } END ::= é中 */', '--é--', '\n--\n']
+              '-- "q" { } END ::= \n', '/* "q" { } END ::= é中 */', '--é--', '\n--\n', '/* 5" wide */', '-- it"s --', "/* '0 */"]
 PUNCT = set('{}()[],:;|^')
 
 
@@ -71,7 +71,7 @@ def canon_items(r):
 def trivia_cases(ck, n):
     """byte strings made of trivia pieces followed by a token start (or junk), for the scanner correspondence"""
     pieces = [' ', '\t', '\n', '\r\n', '-- c --', '-- c\n', '--\n', '----', '/* b */', '/**/', '/* a /* n */ c */', '/* é中 */', '-- é --',
-              '/* unterminated', '--', '/*', '*/', '-', '/', '/* a */ */', '-- x -- y', '/*/ */', '--- x\n']
+              '/* unterminated', '--', '/*', '*/', '-', '/', '/* a */ */', '-- x -- y', '/*/ */', '--- x\n', '/* 5" */', '-- 6" --', "/* ' */", '"']
     tails = ['Foo', '', 'x', '{', '-x', '/x', '€']
     out = []
     for _ in range(n):
